@@ -579,11 +579,18 @@ class ClassModificationArgument(Node):
         )
 
     def __deepcopy__(self, memo):
-        _scope, _deepcp = self.scope, self.__deepcopy__
+        # The scope is shared with the copy, not copied.  The instance attribute that shadows
+        # this method while the default deepcopy runs is removed from both objects again (a
+        # hook left on the copy would be bound to the original).
+        _scope = self.scope
         self.scope, self.__deepcopy__ = None, None
-        new = copy.deepcopy(self, memo)
-        self.scope, self.__deepcopy__ = _scope, _deepcp
-        new.scope, new.__deepcopy__ = _scope, _deepcp
+        try:
+            new = copy.deepcopy(self, memo)
+        finally:
+            self.scope = _scope
+            del self.__deepcopy__
+        new.scope = _scope
+        del new.__deepcopy__
         return new
 
 
@@ -854,15 +861,19 @@ class Class(Node):
         self.initial_equations.remove(e)
 
     def __deepcopy__(self, memo):
-        # Avoid copying the entire tree
-        if self.parent is not None and self.parent not in memo:
+        # Avoid copying the entire tree (memo is keyed by object id)
+        if self.parent is not None and id(self.parent) not in memo:
             memo[id(self.parent)] = self.parent
 
-        _deepcp = self.__deepcopy__
+        # Shadow this method on the instance while the default deepcopy runs.  Both the
+        # original and the copy must end up without the shadow: a hook left on the copy
+        # would be bound to the original, so that copying the copy copies the original.
         self.__deepcopy__ = None
-        new = copy.deepcopy(self, memo)
-        self.__deepcopy__ = _deepcp
-        new.__deepcopy__ = _deepcp
+        try:
+            new = copy.deepcopy(self, memo)
+        finally:
+            del self.__deepcopy__
+        del new.__deepcopy__
         return new
 
     def __repr__(self):
